@@ -199,7 +199,7 @@ prop(
     title="Start is all-or-nothing and reports the real cause of failure",
     level="fault_enumeration",
     engine="real",
-    campaigns=[dict(bin="C04.rel", sweep=True, random=dict(quick=2000, thorough=40000)),
+    campaigns=[dict(bin="C04.rel", sweep=True, random=dict(quick=4000, thorough=40000)),
                # Windows half on engine W: every allocation and every Win32 call of process_start fails in turn
                dict(bin="C04win", sweep=True, random=dict(quick=2000, thorough=40000), workers=4)],
     level_text=("Every system/library call that reproc_start makes - in the parent and in the forked child before exec - is a fault point discovered from a fault-free run of each scenario; "
@@ -228,7 +228,7 @@ prop(
     title="Start leaves the caller untouched and gives the child a clean signal state",
     level="fault_enumeration",
     engine="real",
-    campaigns=[dict(bin="C12.rel", sweep=True, random=dict(quick=2000, thorough=40000))],
+    campaigns=[dict(bin="C12.rel", sweep=True, random=dict(quick=4000, thorough=40000))],
     level_text=("Snapshot equality of the calling thread's signal mask, all 62 observable dispositions (handler, mask, flags), working directory identity and environ (pointer and "
                 "content) around reproc_start on every return path: every single fault point of every scenario (quick) and pairs (thorough), each with a generated parent signal "
                 "state (random blocked set, ignored and handled signals). For started programs, SigBlk/SigIgn/SigCgt from the child's own /proc/self/status at entry."),
@@ -289,7 +289,7 @@ prop(
     title="Stop sequences escalate in order, report truthfully and respect their timeouts",
     level="exploration",
     engine="vtime",
-    campaigns=[dict(bin="C07", sweep=True, random=dict(quick=3000, thorough=80000))],
+    campaigns=[dict(bin="C07", sweep=True, random=dict(quick=8000, thorough=80000))],
     level_text=("All 5^3 shapes of three actions from {noop, wait, terminate, kill, out-of-range} x 8 child behaviours are enumerated (x4 draws quick, x40 thorough) with generated timeouts "
                 "{0, finite up to 1e7, INFINITE, DEADLINE}, deadlines, call times and handle states, on a virtual millisecond clock: an independent interpreter of the documented contract "
                 "predicts the ordered signal log with time stamps, the exact virtual duration and the result; 'would wait for ever' is a detected state. Exhaustive over action shapes only."),
@@ -310,7 +310,7 @@ prop(
     title="Deadlines and timeouts bound every wait and poll, whatever the order of sources",
     level="exploration",
     engine="vtime",
-    campaigns=[dict(bin="C08", random=dict(quick=4000, thorough=80000))],
+    campaigns=[dict(bin="C08", random=dict(quick=10000, thorough=80000))],
     level_text=("1-6 poll sources in generated order (NULL sources interleaved), each process started with no deadline, a future one (1..1e5 ms, INT_MAX) or one that has expired by the time of "
                 "the poll; timeouts {0, finite, INFINITE} constructed around the remaining deadlines and child event times (smaller / equal / larger); scripted child writes, closes and exits "
                 "before, between and after those bounds; up to three polls in a row (repeat after expiry); then reproc_wait with 0 / finite / DEADLINE / INFINITE. On a virtual clock the oracle "
@@ -330,7 +330,7 @@ prop(
     title="Poll reports exactly the events that are true and nothing else",
     level="exploration",
     engine="vtime",
-    campaigns=[dict(bin="C09", random=dict(quick=5000, thorough=100000))],
+    campaigns=[dict(bin="C09", random=dict(quick=8000, thorough=100000))],
     level_text=("1-5 sources (NULL included) with every interest mask; each stream's state is constructed and acknowledged before the poll (not a pipe / open idle / data pending from 1 byte to a "
                 "full pipe / closed by the child / closed by the parent; stdin empty / full / reader gone / closed by the parent; child running / exited / reaped), so with timeout 0 nothing depends on "
                 "timing; some cases poll with a finite or infinite timeout and a scripted later event. Oracle: events subset of interests, NULL sources silent, return value = number of sources with events, "
@@ -349,7 +349,7 @@ prop(
     title="Exit status is reported exactly, stays stable, and the child is reaped once",
     level="exploration",
     engine="vtime",
-    campaigns=[dict(bin="C01", sweep=True, random=dict(quick=4000, thorough=80000))],
+    campaigns=[dict(bin="C01", sweep=True, random=dict(quick=10000, thorough=80000))],
     level_text=("Deterministic sweep of all 256 exit codes and all 23 terminating signals (1..31 minus CHLD, CONT, STOP, TSTP, TTIN, TTOU, URG, WINCH; core dumps disabled in the child) with "
                 "wait-only histories, plus random histories of 1-12 (thorough 30) operations from {wait(0|finite|INFINITE|DEADLINE), stop(3 actions), terminate, kill} placed before and after the "
                 "ending on a virtual clock, children that die on or ignore SIGTERM, optional deadline. The ending is commanded by the harness, so the expected value is independent of the library. "
@@ -370,7 +370,7 @@ prop(
     title="Destroy applies the stop policy; the default never abandons a running child",
     level="exploration",
     engine="vtime",
-    campaigns=[dict(bin="C15", sweep=True, random=dict(quick=3000, thorough=60000))],
+    campaigns=[dict(bin="C15", sweep=True, random=dict(quick=8000, thorough=60000))],
     level_text=("The stop policy stored at start is generated like C07's (all 125 action shapes x 8 child behaviours enumerated, timeouts/deadline/times from the tape); destroy is then called in every "
                 "handle state: running, exited but unreaped, reaped, never started, failed start, child side of a fork, NULL - through reproc_destroy and through reproc::process's destructor. On the "
                 "virtual clock the C07 interpreter applied to the stored policy predicts the signals with time stamps, the duration and whether the child is reaped; for the default policy: no SIGKILL, "
@@ -389,7 +389,7 @@ prop(
     title="Nonblocking mode never blocks; blocking calls wait only for the child",
     level="exploration",
     engine="vtime",
-    campaigns=[dict(bin="C17", random=dict(quick=5000, thorough=100000))],
+    campaigns=[dict(bin="C17", random=dict(quick=10000, thorough=100000))],
     level_text=("Reads (stdout/stderr) and writes (stdin) with the pipe state constructed beforehand (empty, partly filled, full = exactly 64 KiB in page-sized writes, far side closed by the child or by its "
                 "exit), sizes 1 B - 1 MiB, nonblocking on and off, a child that is idle for ever, acts at scripted virtual times (writes, reads in page multiples, closes, exits) or is already gone; start-up "
                 "input of 0, 1, 4096, 65535, 65536, 65537 and 2^20 bytes with a child that reads at once, late or never. The virtual-time scheduler's blocking-episode log is the oracle: no episode and "
@@ -408,7 +408,7 @@ prop(
     title="Any call sequence follows the documented life cycle; misuse errors, never UB",
     level="exploration",
     engine="vtime",
-    campaigns=[dict(bin="C14", random=dict(quick=4000, thorough=80000))],
+    campaigns=[dict(bin="C14", random=dict(quick=8000, thorough=80000))],
     level_text=("Model-based sequences of 1-40 (thorough 120) calls over up to three handles: new; start (valid with generated redirects/nonblocking/deadline, four classes of invalid options, missing "
                 "program, fork mode - whose child side then calls every function and must get EINVAL from all but destroy); pid; write (data, NULL/0, NULL/n); read (stdout, stderr, stdin, out-of-range); "
                 "close (incl. out-of-range, twice); poll (1-4 sources incl. NULL, repeated and not-started handles, NULL array, zero count); wait; terminate; kill; stop (incl. out-of-range actions); destroy; "
